@@ -84,7 +84,7 @@ class Engine:
         self.enum_src_dirs = enum_src_dirs
         self.call_stack = []; self.trace = bool(__import__('os').environ.get('MIRSYM_TRACE')); self.env_stack = [{}]; self._gen_cache = index.__dict__.setdefault('_gen_cache', {})
         self.models = []                           # [(compiled regex, fn)]
-        self.touched = {}; self.cov = set()
+        self.touched = {}; self.cov = set(); self.const_overrides = {}
         from . import models, models2, models3
         models.register(self); models2.register2(self); models3.register3(self)
 
@@ -312,6 +312,9 @@ class Engine:
             bits = 64 if m.group(2) == 'size' else int(m.group(2))
             if m.group(1) == 'u': return (1 << bits) - 1 if m.group(3) == 'MAX' else 0
             return (1 << (bits - 1)) - 1 if m.group(3) == 'MAX' else -(1 << (bits - 1))
+        if self.const_overrides:
+            for k_, v_ in self.const_overrides.items():
+                if s.endswith('::' + k_) or s == k_: return v_
         if s.startswith(('tracing::', 'LevelFilter::')): return Agg([], 'tracing')
         if s.startswith('{alloc'): return Ref([Agg([], 'static:' + s)], 0)             # reference to a static we never look into            # tracing is modelled as disabled
         segs = split_path(strip_lifetimes(s))
